@@ -12,7 +12,7 @@ Definition attr := (string * option string)%type.
 Inductive event :=
 | EStart (tag : string) (attrs : list attr)    (* handle_starttag, also via handle_startendtag *)
 | EData (d : string)                            (* handle_data *)
-| EEnd (tag : string)                           (* handle_endtag: inherited, does nothing *)
+| EEnd (tag : string)                           (* handle_endtag *)
 | EOther.                                       (* comments, declarations, pi: nothing *)
 
 Section Page.
@@ -46,7 +46,8 @@ Definition step (st : pstate) (e : event) : pstate :=
   if p_raised st then st else
   match e with
   | EOther => st
-  | EEnd _ => st
+  | EEnd tag =>                 (* </a> closes the active link *)
+      if String.eqb tag pg_anchor then mkP None (p_skip st) (p_dists st) false else st
   | EStart tag attrs =>
       if String.eqb tag pg_anchor then
         let '(lnk, rp) := scan_attrs attrs None None in
@@ -54,7 +55,7 @@ Definition step (st : pstate) (e : event) : pstate :=
         | Some sk => mkP lnk sk (p_dists st) false
         | None => mkP lnk false (p_dists st) true
         end
-      else mkP None (p_skip st) (p_dists st) false
+      else st                   (* other elements inside an anchor leave the active link alone *)
   | EData d =>
       match p_link st with
       | None => st
